@@ -52,6 +52,10 @@ CLAIMED = {
    technique="deterministic simulation: authority, encryptor and key-holder nodes; keys, ciphertexts and policies marshalled / printed and re-parsed on every hop; ciphertext corruption (incl. enumerated single-bit flips), truncation, extension, delivery to unqualified holders, holder restart, entropy short reads; policy-semantics evaluator as reference model",
    text="Generated policy formulas (and/or/not, nesting, repeated labels, single leaves; up to 7 leaves over a 3x3 alphabet) are printed in several styles, parsed, used to encrypt, extracted again from the ciphertext and printed/re-parsed; for every holder (attribute maps incl. missing labels) Decrypt returns exactly the message iff the evaluator of the stated semantics says the attributes satisfy the policy, and Satisfaction / CouldDecrypt agree with it without the key; a corrupted, truncated or extended ciphertext never decrypts to a different message; keys survive marshalling.",
    note="Formula x assignment space is sampled by the generator; the simulator contributes the parties, serialisation on every hop and the corruption faults. Pairing arithmetic is trusted (C13 not claimed)."),
+ "C14": dict(engine="confsim", level="exploration", ref="DESIGN.md §3 C14",
+   technique="deterministic replay across configurations: the seeded plans (with their injected faults) of the protocol simulations and of an edge-biased primitive transcript are executed in separate processes under {default, purego, cpu.avx2=off, cpu.bmi2=off, cpu.adx=off, all off}; event-log digests are diffed and a difference is bisected to the first differing event",
+   text="The simulator's replay-equality check applied across build / CPU configurations: every plan of workloads c14prim (fp25519, fp448, x25519, x448, ed25519, ed448, goldilocks, fourq, curve4q, p384, csidh, sidh, sike, ML-KEM, Kyber, Dilithium, ML-DSA, SHAKE, K12, keccakf1600 x2/x4, Frodo, X-Wing with edge-biased operands) and C01, C02, C07, C08, C15, C16 (faults steer execution into rejection paths) must give the same event-log digest in all six configurations. A difference is reproduced, checked for self-determinism of both configurations, bisected to the first differing event and reported with the plan as replay file.",
+   note="Field results are compared in canonical form; arm64 back-ends cannot run here; tkn20 excluded (unordered map iteration); GODEBUG feature switches honoured by x/sys/cpu on this machine."),
 }
 
 NA = {
@@ -95,6 +99,7 @@ m = {
  "engines": [
    {"name": "codecsim", "path": "sim/codec", "serves_properties": ["C09", "C10"], "kind_free_text": "encode -> fault-injecting medium -> decode, enumerated fault families per entry point"},
    {"name": "histsim", "path": "sim/props/c15 (+c11)", "serves_properties": ["C11", "C15"], "kind_free_text": "single-owner object histories against value / one-shot reference models"},
+   {"name": "confsim", "path": "sim/props/c14 + c14prim", "serves_properties": ["C14"], "kind_free_text": "multi-process replay of the same seeded plans under each build / CPU configuration with event-log diff"},
    {"name": "netsim", "path": "sim/core + sim/props/*", "serves_properties": sorted(p for p in CLAIMED if CLAIMED[p]["engine"].startswith("netsim")), "kind_free_text": "seeded protocol simulation: nodes are real circl calls, the simulator owns transport, disk, entropy and crashes"},
  ],
  "checks": checks,
